@@ -90,6 +90,9 @@ type tcase struct {
 	Side  string          `json:"side"`
 	Kink  bool            `json:"kink"`
 	Why   string          `json:"why"`
+	St    string          `json:"st"`
+	Tok   string          `json:"tok"`
+	Cdfq  rat             `json:"cdfq"`
 	Pmf   []rat           `json:"pmf"`
 	Scale json.RawMessage `json:"scale"`
 	Tail  rat             `json:"tail"`
@@ -285,7 +288,11 @@ func reconstruct(f *family, c *tcase, t ScalarType, variables bool) (A, B *obj, 
 }
 
 func baseSig(c *tcase, tname string) vh.M {
-	return vh.M{"fam": c.Fam, "op": c.Op, "type": tname}
+	s := vh.M{"fam": c.Fam, "op": c.Op, "type": tname}
+	if c.St != "" && c.St != "dense" {
+		s["storage"] = c.St
+	}
+	return s
 }
 
 func caseDetail(c *tcase, f *family) vh.M {
@@ -590,6 +597,11 @@ type evalRes struct {
 }
 
 func replayEval(f *family, c *tcase) {
+	if c.St != "" {
+		curStorage = c.St
+		defer func() { curStorage = "dense" }()
+		counts["storage_"+c.St]++
+	}
 	pidx := c.A
 	if c.W == 2 {
 		pidx = c.B
@@ -643,7 +655,7 @@ func replayEval(f *family, c *tcase) {
 				res.d = append(res.d, dv)
 			}
 		}
-		if f.HasCdf && target.cdf != nil && target.logcdf != nil && len(xs) == 1 && c.Cls != "nonint" {
+		if f.HasCdf && target.cdf != nil && target.logcdf != nil && len(xs) == 1 && (c.Cls != "nonint" || f.Disc) {
 			res.hasCdf = true
 			if variables {
 				// values only: with activated parameters the Normal LogCdf refuses
@@ -808,6 +820,73 @@ func replayEval(f *family, c *tcase) {
 	}
 }
 
+// replayEvalSp: a discrete distribution function at +-Inf, +-2^63 and NaN.
+func replayEvalSp(f *family, c *tcase) {
+	var x float64
+	switch c.Tok {
+	case "pinf":
+		x = math.Inf(1)
+	case "ninf":
+		x = math.Inf(-1)
+	case "p2_63":
+		x = 9223372036854775808.0
+	case "m2_63":
+		x = -9223372036854775808.0
+	default:
+		x = math.NaN()
+	}
+	for _, tt := range typeTab {
+		A, B, msg := reconstruct(f, c, tt.t, false)
+		if msg != "" {
+			return // reported by the eval transitions of the same state
+		}
+		target := A
+		if c.W == 2 {
+			target = B
+		}
+		if target.cdf == nil || target.logcdf == nil {
+			return
+		}
+		r0, r1, r2 := NewScalar(tt.t, 0.0), NewScalar(tt.t, 0.0), NewScalar(tt.t, 0.0)
+		var e0, e1, e2 error
+		pm := vh.Try(func() {
+			e0 = target.logpdf(r0, []Scalar{NewScalar(tt.t, x)})
+			e1 = target.cdf(r1, NewScalar(tt.t, x))
+			e2 = target.logcdf(r2, NewScalar(tt.t, x))
+		})
+		counts["special_points"]++
+		s := baseSig(c, tt.name)
+		s["tok"] = c.Tok
+		d := caseDetail(c, f)
+		d["logpdf"], d["cdf"], d["logcdf"] = jf(r0.GetFloat64()), jf(r1.GetFloat64()), jf(r2.GetFloat64())
+		d["panic"] = pm
+		d["errors"] = fmt.Sprint(e0, e1, e2)
+		if pm != "" {
+			s["what"] = "panic_at_special_argument"
+			mismatch(s, d)
+			continue
+		}
+		if c.Side == "any" {
+			continue
+		}
+		want := 0.0
+		if c.Side == "above" {
+			want = 1.0
+		}
+		if e0 != nil || !math.IsInf(r0.GetFloat64(), -1) {
+			s["what"] = "not_neginf_outside_support"
+			mismatch(s, d)
+		}
+		okLog := (want == 0 && (math.IsInf(r2.GetFloat64(), -1) || r2.GetFloat64() < -690)) || (want == 1 && closeTo(r2.GetFloat64(), 0, 1e-12))
+		if e1 != nil || e2 != nil || !closeTo(r1.GetFloat64(), want, 1e-12) || !okLog {
+			s2 := baseSig(c, tt.name)
+			s2["tok"] = c.Tok
+			s2["what"] = "cdf_outside_support_" + c.Side
+			mismatch(s2, d)
+		}
+	}
+}
+
 func checkCdf(f *family, c *tcase, vr *variant, tname string, res *evalRes, vars, xs, p []float64) {
 	s := baseSig(c, tname)
 	s["cls"] = c.Cls
@@ -826,6 +905,12 @@ func checkCdf(f *family, c *tcase, vr *variant, tname string, res *evalRes, vars
 	var want float64
 	tol := 1e-9
 	switch {
+	case f.Disc:
+		// the exact distribution function of the model: sum of the exact masses of
+		// the support points <= x, for integer and non-integer x alike
+		want = c.Cdfq.f()
+		tol = 1e-12
+		counts["cdf_exact_points"]++
 	case c.Cls == "neginf" && c.Side == "below":
 		want = 0
 	case c.Cls == "neginf" && c.Side == "above":
@@ -911,6 +996,8 @@ func replay(casesPath, resultsPath string) {
 			replaySet(f, c)
 		case "clone":
 			replayClone(f, c)
+		case "evalsp":
+			replayEvalSp(f, c)
 		case "eval":
 			replayEval(f, c)
 		}
@@ -962,7 +1049,7 @@ func record(casesPath, tracePath, resultsPath string) {
 		if c.Op == "new" && c.Exp == "ok" {
 			fars[key{c.Fam, c.J}] = c.Far
 		}
-		if c.Op == "eval" && c.B == 0 && c.W == 1 && len(c.X) == 1 && c.Cls != "nonint" {
+		if c.Op == "eval" && c.B == 0 && c.W == 1 && len(c.X) == 1 && (c.St == "" || c.St == "dense") {
 			k := key{c.Fam, c.A}
 			if _, ok := grids[k]; !ok {
 				order = append(order, k)
